@@ -533,7 +533,17 @@ var ruleInputRO = &Rule{
 	Doc: "no store through, map update of, delete/clear/append/in-place sort on memory that derives from the queried value, a variable value or the variables map, in any function reachable from the entry points: containers the executor writes are its own fresh allocations (result lists, the keyvalue triple, the auto-wrap slice)",
 	Run: func(p *Prog) *RuleOut {
 		out := newOut("R-INPUT-RO")
-		reach := p.reachFrom(entryRootsFn(p))
+		roots := entryRootsFn(p)
+		// option closures are built by the caller and run by the constructor:
+		// no module function calls the exported option constructors, so the
+		// call graph does not reach their literals from the entry points
+		for fn := range p.AllFns {
+			if fnPkgPath(fn) == pkgExec && fn.Parent() != nil && isOptionCtor(p, fn.Parent()) {
+				roots = append(roots, fn)
+			}
+		}
+		sortFuncs(roots)
+		reach := p.reachFrom(roots)
 		n, nsus := 0, 0
 		ord := ordinals{}
 		isItemish := func(t types.Type) bool {
@@ -638,6 +648,10 @@ var ruleInputRO = &Rule{
 					}
 					nfs++
 					key := fmt.Sprintf("%s stores into %s.%s #%d", fnName(fn), owner.Obj().Name(), fieldName(fa), ord.next(fnName(fn)+"/field"))
+					if other := sharesOtherList(st.Val, fa, 0); other != "" {
+						out.viol(key, p.pos(st.Pos()), fnName(fn), "the field is set to a reslice of "+other+": two lists now share one backing array, so appending to one overwrites items of the other that have not been read yet", reach.path(p, fn)...)
+						continue
+					}
 					if why := p.foreignContainer(fn, st.Val, 0); why != "" {
 						out.viol(key, p.pos(st.Pos()), fnName(fn), "a container the executor does not own ("+why+") becomes the backing store of "+owner.Obj().Name()+"."+fieldName(fa)+": a later append or element store would write into the caller's document", reach.path(p, fn)...)
 					} else {
@@ -759,4 +773,33 @@ func fieldOf(fa *ssa.FieldAddr) *types.Var {
 		return st.Field(fa.Field)
 	}
 	return nil
+}
+
+// sharesOtherList: v is (a reslice / append base of) a load of the same field
+// of a different struct value than the one dst belongs to.
+func sharesOtherList(v ssa.Value, dst *ssa.FieldAddr, depth int) string {
+	if depth > 6 {
+		return ""
+	}
+	switch x := stripConv(v).(type) {
+	case *ssa.Slice:
+		return sharesOtherList(x.X, dst, depth+1)
+	case *ssa.Phi:
+		for _, e := range x.Edges {
+			if w := sharesOtherList(e, dst, depth+1); w != "" {
+				return w
+			}
+		}
+	case *ssa.Call:
+		if bi, ok := x.Call.Value.(*ssa.Builtin); ok && bi.Name() == "append" {
+			return sharesOtherList(x.Call.Args[0], dst, depth+1)
+		}
+	case *ssa.UnOp:
+		if x.Op == token.MUL {
+			if fa, ok := x.X.(*ssa.FieldAddr); ok && fa.Field == dst.Field && namedOf(fa.X.Type()) == namedOf(dst.X.Type()) && !sameValue(fa.X, dst.X) {
+				return "the list of another value (" + fa.X.Name() + ")"
+			}
+		}
+	}
+	return ""
 }
